@@ -51,8 +51,7 @@ TAIL_FIRST = 917327      # 4094-05-05: first day the library's day-count -> ymd 
 
 def tail_collapse(k, m):
     """mismatch classes of day-count sources whose whole failing set lies in the 606-day tail are one finding"""
-    w = k.split()
-    if m["min"] >= TAIL_FIRST and len(w) > 1 and any(w[1].startswith(p) for p in ("daisy", "ldn", "mdn", "jdn")):
+    if m["min"] >= TAIL_FIRST and any(p in k for p in ("daisy", "ldn", "mdn", "jdn")):
         return "daycount-tail:4094-05-05..4095-12-31"
     return None
 
